@@ -5,7 +5,7 @@ C30 - graphics never draws outside the viewport or the active page;
 E1 (bounded grammar x configurations) on the real interpreter:
 
   leg gfx  : every (adapter, SCREEN) graphics mode of modes._MODES
-             x viewport  {none, VIEW (12,6)-(27,17), VIEW SCREEN (4,10)-(19,21),
+             x viewport  {none, VIEW (12.5,6.5)-(26.5,16.5) [= (13,7)-(27,17)], VIEW SCREEN (4,10)-(19,21),
                           VIEW touching the bottom-right corner, VIEW SCREEN touching (0,0)}
              x WINDOW    {none, WINDOW (0,0)-(100,100), WINDOW SCREEN (-1,-1)-(1,1)}
              x (active page, polarity)  {(0, bg 0 / draw 1), (1, bg max / draw 0), ...}
@@ -83,7 +83,7 @@ def view_rect(view, W, Hh):
     if view == 'rel':
         # (left edge and top edge differ, one way in 'rel' and the other in 'abs': bounds of the two axes must not be mixed up)
         # (written with fractions: corners are rounded to the nearest pixel, halves away from zero)
-        return b'VIEW (11.6,5.6)-(26.5,16.5)', (12, 6, 27, 17), True
+        return b'VIEW (12.5,6.5)-(26.5,16.5)', (13, 7, 27, 17), True
     if view == 'abs':
         return b'VIEW SCREEN (4,10)-(19,21)', (4, 10, 19, 21), False
     if view == 'relcorner':
